@@ -5117,12 +5117,19 @@ class DecRule:
             return self.roaffine
         else:
             if self.depend is not None:
+                num_rand = self.model.sup_model.vars[-1].last
+                if self.depend.shape[1] < num_rand:
+                    # random variables declared after adapt()
+                    extra = num_rand - self.depend.shape[1]
+                    self.depend = np.concatenate(
+                        (self.depend,
+                         np.zeros((self.depend.shape[0], extra), dtype=int)),
+                        axis=1)
                 num_ones = self.depend.sum()
                 var_coeff = self.model.dvar(num_ones)
                 self.var_coeff = var_coeff
                 row_ind = np.where(self.depend.flatten() == 1)[0]
                 col_ind = var_coeff.get_ind()
-                num_rand = self.model.sup_model.vars[-1].last
                 row = self.size * num_rand
                 col = self.model.rc_model.vars[-1].last
                 raffine_linear = csr_matrix((np.ones(num_ones),
